@@ -202,6 +202,14 @@ type Conn struct {
 	Config ConnConfig
 }
 
+// currentWireConn returns the wire connection in use. It is replaced by reconnect, so every
+// reader takes it under the lock.
+func (c *Conn) currentWireConn() *wire.ClientConn {
+	c.wireConnMu.Lock()
+	defer c.wireConnMu.Unlock()
+	return c.wireConn
+}
+
 func (c *Conn) isClosed() bool {
 	return c.state.Is(connStatusClosed)
 }
@@ -272,10 +280,11 @@ func (c *Conn) OpenUpstream(ctx context.Context, sessionID string, opts ...Upstr
 
 	var resp *message.UpstreamOpenResponse
 	var generation uint64
+	var wireConn *wire.ClientConn
 	err := c.send(ctx, func(ctx context.Context) error {
 		// do not hold the lock while waiting for the response: Close and reconnect need it
 		c.wireConnMu.Lock()
-		wireConn := c.wireConn
+		wireConn = c.wireConn
 		generation = c.state.Reconnects()
 		c.wireConnMu.Unlock()
 		r, err := wireConn.SendUpstreamOpenRequest(ctx, &message.UpstreamOpenRequest{
@@ -305,9 +314,7 @@ func (c *Conn) OpenUpstream(ctx context.Context, sessionID string, opts ...Upstr
 		}
 	}
 
-	c.wireConnMu.Lock()
-	ch, err := c.wireConn.SubscribeUpstreamChunkAck(ctx, resp.AssignedStreamIDAlias)
-	c.wireConnMu.Unlock()
+	ch, err := wireConn.SubscribeUpstreamChunkAck(ctx, resp.AssignedStreamIDAlias)
 	if err != nil {
 		return nil, errors.Errorf("failed to SubscribeUpstreamChunkAck: %w", err)
 	}
@@ -326,7 +333,6 @@ func (c *Conn) OpenUpstream(ctx context.Context, sessionID string, opts ...Upstr
 		revDataIDAliases: revDataIDAliases,
 		ServerTime:       resp.ServerTime,
 		idAlias:          resp.AssignedStreamIDAlias,
-		wireConn:         c.wireConn,
 		connGeneration:   generation,
 		sequence:         newSequenceNumberGenerator(0),
 		logger:           c.logger,
@@ -352,6 +358,7 @@ func (c *Conn) OpenUpstream(ctx context.Context, sessionID string, opts ...Upstr
 		upstreamChunkResultChs: map[uint32]chan *message.UpstreamChunkResult{},
 		receivedAck:            sync.NewCond(&sync.RWMutex{}),
 	}
+	u.wireConn.Store(wireConn)
 	go func() {
 		defer c.state.cond.Broadcast()
 		defer u.state.cond.Broadcast()
@@ -431,27 +438,27 @@ func (c *Conn) OpenDownstream(ctx context.Context, filters []*message.Downstream
 	alias := c.downstreamIDGenerator.Next()
 
 	var generation uint64
+	var wireConn *wire.ClientConn
 	err = c.send(ctx, func(ctx context.Context) error {
 		c.wireConnMu.Lock()
 		generation = c.state.Reconnects()
-		dpsCh, err = c.wireConn.SubscribeDownstreamChunk(ctx, alias, downconf.QoS)
+		wireConn = c.wireConn
 		c.wireConnMu.Unlock()
+		dpsCh, err = wireConn.SubscribeDownstreamChunk(ctx, alias, downconf.QoS)
 		if err != nil {
 			return errors.Errorf("failed SubscribeDownstreamChunk: %w", err)
 		}
-		c.wireConnMu.Lock()
-		ackCompCh, err = c.wireConn.SubscribeDownstreamChunkAckComplete(ctx, alias)
-		c.wireConnMu.Unlock()
+		ackCompCh, err = wireConn.SubscribeDownstreamChunkAckComplete(ctx, alias)
 		if err != nil {
 			return errors.Errorf("failed SubscribeDownstreamChunkAckComplete: %w", err)
 		}
 
-		metaCh, err = c.subscribeDownstreamMetadata(ctx, alias, filters)
+		metaCh, err = c.subscribeDownstreamMetadata(ctx, wireConn, alias, filters)
 		if err != nil {
 			return errors.Errorf("failed subscribeDownstreamMetadata: %w", err)
 		}
 
-		resp, err = c.wireConn.SendDownstreamOpenRequest(ctx, &message.DownstreamOpenRequest{
+		resp, err = wireConn.SendDownstreamOpenRequest(ctx, &message.DownstreamOpenRequest{
 			DesiredStreamIDAlias: alias,
 			DownstreamFilters:    filters,
 			DataIDAliases:        aliases,
@@ -489,7 +496,6 @@ func (c *Conn) OpenDownstream(ctx context.Context, filters []*message.Downstream
 		lastIssuedUpstreamInfoAlias: 0,
 		lastIssuedAckSequenceNumber: 0,
 		ServerTime:                  resp.ServerTime,
-		wireConn:                    c.wireConn,
 		connGeneration:              generation,
 		idAlias:                     alias,
 		dpsCh:                       dpsCh,
@@ -515,6 +521,7 @@ func (c *Conn) OpenDownstream(ctx context.Context, filters []*message.Downstream
 		state:      newStreamState(),
 		Config:     downconf,
 	}
+	down.wireConn.Store(wireConn)
 	go func() {
 		defer c.state.cond.Broadcast()
 		defer down.state.cond.Broadcast()
@@ -624,9 +631,10 @@ func (c *Conn) send(ctx context.Context, f func(context.Context) error) error {
 }
 
 func (c *Conn) observeConnClose(ctx context.Context) error {
+	wireConn := c.currentWireConn()
 	for {
 		select {
-		case <-c.wireConn.Closed():
+		case <-wireConn.Closed():
 			return errors.New("unexpected disconnected")
 		case <-ctx.Done():
 			return nil
@@ -772,8 +780,9 @@ func (c *Conn) run(ctx context.Context) error {
 }
 
 func (c *Conn) readUpstreamCallAckLoop(ctx context.Context) error {
+	wireConn := c.currentWireConn()
 	for {
-		ack, err := c.wireConn.ReceiveUpstreamCallAck(ctx)
+		ack, err := wireConn.ReceiveUpstreamCallAck(ctx)
 		if err != nil {
 			if !errors.Is(err, context.Canceled) && !errors.Is(err, errors.ErrConnectionClosed) {
 				c.logger.Warnf(ctx, "failed to ReceiveUpstreamCallAck: %+v", err)
@@ -794,8 +803,9 @@ func (c *Conn) readUpstreamCallAckLoop(ctx context.Context) error {
 }
 
 func (c *Conn) readDownstreamCallLoop(ctx context.Context) error {
+	wireConn := c.currentWireConn()
 	for {
-		dc, err := c.wireConn.ReceiveDownstreamCall(ctx)
+		dc, err := wireConn.ReceiveDownstreamCall(ctx)
 		if err != nil {
 			if !errors.Is(err, context.Canceled) && !errors.Is(err, errors.ErrConnectionClosed) {
 				c.logger.Warnf(ctx, "failed to ReceiveDownstreamCall: %+v", err)
@@ -831,8 +841,7 @@ func (c *Conn) readDownstreamCallLoop(ctx context.Context) error {
 	}
 }
 
-func (c *Conn) subscribeDownstreamMetadata(ctx context.Context, alias uint32, filters []*message.DownstreamFilter) (<-chan *message.DownstreamMetadata, error) {
-	wireConn := c.wireConn
+func (c *Conn) subscribeDownstreamMetadata(ctx context.Context, wireConn *wire.ClientConn, alias uint32, filters []*message.DownstreamFilter) (<-chan *message.DownstreamMetadata, error) {
 	orDone := func(inCh <-chan *message.DownstreamMetadata) <-chan *message.DownstreamMetadata {
 		resCh := make(chan *message.DownstreamMetadata)
 		go func() {
